@@ -1,4 +1,5 @@
 import OptRs.Driver.Terms
+import OptRs.Model.FFObj
 namespace OptRs.Driver
 open OptRs
 
@@ -48,6 +49,54 @@ def ffLine (line : String) : String :=
       let e := ffEnergy ff terms coords
       let g := ffGradient n.toNat! terms coords
       " ".intercalate ((e :: g.toList).map hexOfFloat)
+    | _ => "bad-op"
+  | _ => "bad-op"
+
+end OptRs.Driver
+
+namespace OptRs.Driver
+open OptRs OptRs.Model
+
+/-- The object model's operations at `f64` over the translated terms. -/
+def ffOpsF (ff : String) : FFOps Float (Array Float) FTerm where
+  zero := 0.0
+  add := (· + ·)
+  start := if ff = "rb" then -0.0 else 0.0
+  termE := fun t xs => match termEval t.kind t.params (termCoords t xs) with | some (e, _) => e | none => 0.0
+  termAdd := fun t xs buf =>
+    match termEval t.kind t.params (termCoords t xs) with
+    | some (_, g) =>
+      ((g.zipIdx).foldl (fun (b : Array Float) (v, s) =>
+        let slot := 3 * t.idxs.getD (s / 3) 0 + s % 3
+        b.setIfInBounds slot (b.getD slot 0.0 + v)) buf.toArray).toList
+    | none => buf
+
+def fnvF (fs : List Float) : String :=
+  let h := fs.foldl (fun (h : UInt64) f =>
+    let w : UInt64 := if f.isNaN then (0x7ff8000000000000 : UInt64) else f.toBits
+    (List.range 8).foldl (fun (h : UInt64) k =>
+      (h ^^^ ((w >>> (UInt64.ofNat (8 * k))) &&& (0xff : UInt64))) * (0x100000001b3 : UInt64)) h) (0xcbf29ce484222325 : UInt64)
+  hexOfNat h.toNat 16
+
+/-- `history <ff> <n> | terms | E coords;G coords;…`: one object serves the whole history; answers are printed
+(energies in full, gradients as fingerprints). The buffer starts with arbitrary non-zero contents to show they do not matter. -/
+def historyLine (line : String) : String :=
+  match line.splitOn " | " with
+  | [h, ts, reqs] =>
+    match words h with
+    | ["history", ff, n] =>
+      let terms := parseTerms ts
+      let n := n.toNat!
+      let qs : List (FFReq (Array Float)) := (reqs.splitOn ";").filterMap fun r =>
+        match words r with
+        | "E" :: cs => some (.energy (cs.map floatOfHex).toArray)
+        | "G" :: cs => some (.gradient (cs.map floatOfHex).toArray)
+        | _ => none
+      let o : FFObj Float FTerm := { terms := terms, energyCache := 123.0, buf := List.replicate (3 * n) 7.5 }
+      let ans := (o.serveAll (ffOpsF ff) qs).2
+      ";".intercalate (ans.map fun a => match a with
+        | .e v => "e" ++ hexOfFloat v
+        | .g v => "g" ++ fnvF v)
     | _ => "bad-op"
   | _ => "bad-op"
 
